@@ -182,8 +182,8 @@ def _(c):
     c.abstract = True
     c.verify_body = False
     c.opt(result=lambda ex, fr: ex.symbolic_obj(ex.program.find_class('Term'), 'subterm', exact=False))
-    c.ensures('term_at_point(result, False) == sem_of(tree, False)', label='ih-value')
-    c.ensures('term_at_point(result, True) == sem_of(tree, True)', label='ih-volume-value')
+    c.ensures('term_at_point(result, False) == sem_with_maps(tree, False, species2index, params2index)', label='ih-value')
+    c.ensures('term_at_point(result, True) == sem_with_maps(tree, True, species2index, params2index)', label='ih-volume-value')
     c.note('induction hypothesis of the structural induction over the sympy tree (children are opaque subtrees)')
 
 
@@ -250,3 +250,35 @@ for parent in ('exp', 'Abs'):
         translator_contract('%s[0]=%s' % (parent, ck), SymNode(parent, [_child(ck, 10)]))
 for kind in ('sin', 'Derivative', 'Piecewise', 'ImaginaryUnit'):
     translator_contract('unsupported:' + kind, SymNode(kind, [opaque(0)]), expect_raise='SyntaxError')
+
+
+# ---------------------------------------------------------------------------------------------- parse_expression: text -> term
+# the entry point every rate string and rule right-hand side goes through: the returned term means the written text FOR THE INDEX MAPS IT WAS
+# GIVEN (the oracle parses the same text independently and evaluates it with the same maps).  Anything the function keeps between calls
+# (seed C02-e: a cache of translated trees keyed by names only) is state at function entry: arbitrary, and outside the subset if it is a container
+@speclib.spec('tree_of_text')
+def tree_of_text(ex, text):
+    from spec import sbml_formula as sf
+    return SS.from_formula(sf.parse(str(text).strip().replace('|', '_').replace('heaviside', 'Heaviside'), 'python'))
+
+
+@speclib.spec('sem_with_maps')
+def sem_with_maps(ex, node, with_volume, s2i, p2i):
+    return SS.sem(ex, node, with_volume, dict(species2index={k: ex.concrete_int(v) for k, v in s2i.items()}, params2index={k: ex.concrete_int(v) for k, v in p2i.items()}))
+
+
+def parse_contract(variant, text, s2i, p2i):
+    c = Contract('types', 'parse_expression', ['C02'], variant=variant)
+    c.hints['instring'] = dict(value=text)
+    c.hints['species2index'] = dict(value=lambda ex: dict(s2i))
+    c.hints['params2index'] = dict(value=lambda ex: dict(p2i))
+    c.ensures('term_at_point(result, False) == sem_with_maps(tree_of_text(instring), False, species2index, params2index)', label='value-with-the-given-index-maps')
+    c.ensures('term_at_point(result, True) == sem_with_maps(tree_of_text(instring), True, species2index, params2index)', label='volume-value-with-the-given-index-maps')
+    c.opt(verify_only=True)
+    C.REGISTRY[c.key] = c
+    C.ORDER.append(c.key)
+
+
+for _tag, _s2i in (('declared-order', {'X': 0, 'Y_1': 1, 'volume_like': 2}), ('another-order', {'X': 2, 'Y_1': 0, 'volume_like': 1})):
+    parse_contract('text:linear-rational:' + _tag, 'k*X + S/(1 + Y_1)', _s2i, P2I)
+    parse_contract('text:power-time-volume:' + _tag, ' kq*X^2*volume + t - Y_1 ', _s2i, P2I)
